@@ -441,7 +441,7 @@ type FnSpec struct {
 	Pure       bool
 	Params     []string // for lemma / ext / iface: parameter names
 	Results    []string
-	Bounded    string // non-empty: a stated bound (this function is a bounded stand-in)
+	Bounded    string   // non-empty: a stated bound (this function is a bounded stand-in)
 	Uses       []*SExpr // lemma instantiations: name(args)
 	Line       int
 }
